@@ -279,6 +279,8 @@ def rounded_capacity_compare(ctx, rule, orientation=True):
 
 
 def run(ctx):
+    from .configtime import no_identity_test_against_literals as _no_is_literal
+    _no_is_literal(ctx, 'C03.R5', classes=('Container', 'Plate', 'PlateSlicer', 'Unit'))
     from .configtime import refusals_not_rounded_for_display as _gate_digits
     _gate_digits(ctx, 'C03.R1', ('Container._self_add', 'Container._transfer', 'Container.fill_to', 'Container.dilute', 'Container.create_solution', 'Container.create_solution_from'))
     model = ctx.model
